@@ -86,8 +86,8 @@ func dbProgStr(init int, ops []dbOp) string {
 	return strings.Join(s, " ")
 }
 
-var dbKeys = [][]byte{[]byte("a"), []byte("b"), []byte("c")}
-var dbKeyNames = []string{"a", "b", "c"}
+var dbKeys = [][]byte{[]byte("a"), []byte("b"), []byte("c"), {0, 0, 0, 3}}
+var dbKeyNames = []string{"a", "b", "c", "L3"} // L3 = a key of the legacy fixture tables
 var dbVals = [][]byte{[]byte("x"), incompressible(300, 21), incompressible(50, 22)}
 var dbValNames = []string{"x", "Y300", "Z50"}
 
@@ -102,6 +102,7 @@ type dbSession struct {
 	r      *core.Result
 	viol   func(sig, f string, a ...any)
 	closed bool
+	extra  [][]byte // further keys to probe (content of a pre-seeded legacy table)
 	// walRecordsAtClose: after a clean Close some WAL file still held records (D13 matcher)
 	walRecordsAtClose bool
 }
@@ -119,9 +120,33 @@ func openDB(dir string, cfg dbCfg) (*simpledb.DB, error) {
 	return db, nil
 }
 
-func newSession(dir string, cfgs []dbCfg, init int, r *core.Result, viol func(sig, f string, a ...any)) *dbSession {
+// newSession opens a database in dir. seed (optional): a legacy fixture table that is placed in the directory as the
+// oldest table before the first Open - a directory written by an earlier version of the library.
+func newSession(dir string, cfgs []dbCfg, init int, r *core.Result, viol func(sig, f string, a ...any), seed ...legacyFixture) *dbSession {
 	quietLogs()
 	s := &dbSession{dir: dir, cfgs: cfgs, cfg: init, ref: map[string][]byte{}, r: r, viol: viol}
+	for _, fx := range seed {
+		td := filepath.Join(dir, fmt.Sprintf(simpledb.SSTablePattern, 1))
+		mustMkdir(td)
+		ents, err := os.ReadDir(fx.Dir())
+		if err != nil {
+			viol("", "harness: cannot read fixture %s: %v", fx.Dir(), err)
+			return nil
+		}
+		for _, e := range ents {
+			data, err := os.ReadFile(filepath.Join(fx.Dir(), e.Name()))
+			if err != nil || os.WriteFile(filepath.Join(td, e.Name()), data, 0o644) != nil {
+				viol("", "harness: cannot copy fixture file %s", e.Name())
+				return nil
+			}
+		}
+		for _, e := range fx.KVs {
+			s.ref[string(e.K)] = e.V
+			if !bytes.Equal(e.K, dbKeys[3]) {
+				s.extra = append(s.extra, e.K)
+			}
+		}
+	}
 	db, err := openDB(dir, cfgs[init])
 	if err != nil {
 		viol("", "initial Open failed: %v", err)
@@ -270,15 +295,19 @@ func (s *dbSession) compact(i int) bool {
 // readAll returns a printable snapshot of Get for the whole universe.
 func (s *dbSession) readAll() string {
 	var b strings.Builder
-	for ki, k := range dbKeys {
+	for ki, k := range append(append([][]byte{}, dbKeys...), s.extra...) {
+		name := fmt.Sprintf("%x", k)
+		if ki < len(dbKeyNames) {
+			name = dbKeyNames[ki]
+		}
 		v, err := s.db.Get(string(k))
 		switch {
 		case errors.Is(err, simpledb.ErrNotFound):
-			fmt.Fprintf(&b, "%s=- ", dbKeyNames[ki])
+			fmt.Fprintf(&b, "%s=- ", name)
 		case err != nil:
-			fmt.Fprintf(&b, "%s=ERR(%v) ", dbKeyNames[ki], err)
+			fmt.Fprintf(&b, "%s=ERR(%v) ", name, err)
 		default:
-			fmt.Fprintf(&b, "%s=%s ", dbKeyNames[ki], valName([]byte(v)))
+			fmt.Fprintf(&b, "%s=%s ", name, valName([]byte(v)))
 		}
 	}
 	return b.String()
@@ -296,6 +325,7 @@ func valName(v []byte) string {
 // check compares Get/GetBytes of every universe key (and a never-written key) with the reference map.
 func (s *dbSession) check(i int, op dbOp, sigf func(key string) string) {
 	probe := append([][]byte{}, dbKeys...)
+	probe = append(probe, s.extra...)
 	probe = append(probe, []byte("never"))
 	for _, k := range probe {
 		s.r.Evals += 2
